@@ -13,9 +13,6 @@ ALL = ['C%02d' % i for i in range(1, 21)]
 # property -> (category, level text, level note, technique, design ref)
 CLAIMS = {}
 NOT_APPLICABLE = {
-    'C12': 'Asymptotic O(dt) drift of conserved quantities under step refinement is a statement '
-           'about numeric trajectories; its only structural anchor (velocity before position) is '
-           'not a necessary condition and is claimed under C02 where it is one.',
 }
 
 
